@@ -2,7 +2,7 @@ import Proofs.Lemmas.Codec
 import Proofs.Lemmas.WireRT
 import Proofs.Lemmas.WireInv2
 import Proofs.Lemmas.WireSound2
-import Proofs.Lemmas.SerTop
+import Proofs.Lemmas.SerSem
 import Proofs.Lemmas.SerFuel2
 /-!
 # C14 — encoders are faithful and decoders total
@@ -166,33 +166,66 @@ example : parse {} [8, 128, 0] = .ok (.leaf 1 (.varint 0) .nil) := by rfl
 example : parse { msg := [3], maxDepth := 2 } [26, 2, 26, 0] = .error .maxDepth := by rfl
 
 /-! ## PHP serialize / unserialize -/
-open Model.Ser Proofs.Ser
+open Model.Ser Proofs.Ser Spec.Ser
 
 /-
-Full statement (falsified by the pinned and by the repaired code):
-  ∀ v, ∃ bs, ser v = some bs ∧ unserializeT bs = .value v          -- every value round-trips
-  ∀ raw v, unserializeT raw = .value v → raw is well-formed and fully consumed
-`serialize` has no float case, `unserialize` keeps a lax legacy branch for `s:` input.
+Statements, after the fixes C14-unserialize, C14-1-serialize-float, C14-3-serialize-keyed-array,
+C14-6-unserialize-scalar-keys, C14-7-unserialize-lax-string:
+  every value of the model is serialized, and what unserialize reads back is the same PHP value;
+  a value is returned only if the reader consumed the (trimmed) input to its last byte.
+What is left of the pinned code's laxness is `strings.TrimSpace` (known finding
+`unserialize:accepts-malformed:surrounding-whitespace`): the model starts from the trimmed input.
 -/
 
-/-- **unserialize inverts serialize** on every float-free value: null, booleans, 64-bit
-integers (both ends included), byte strings of any content (quotes, `;`, `}` …), lists and
-non-empty keyed arrays with distinct keys, nested to any depth (`CanonV`). (After fix
-C14-unserialize; on the pinned code any array holding two strings failed.) -/
-theorem C14_serialize_roundtrip_partial (v : PV) (hc : CanonV v) (bs : Model.Ser.Bytes)
+/-- **unserialize inverts serialize**, full strength: for every value — null, booleans, 64-bit
+integers, floats (any float text), byte strings of any content, `ArrayValue`s whose slots are
+positional, named or a mix (`$a['k'] = v`, sparse integer keys, what `json_decode(…, true)` returns),
+`ObjectValue` keyed arrays, empty ones included, nested to any depth — `serialize` answers, and
+`unserialize` of the answer is a value that is the same PHP value (`Spec.Ser.sem`: same entries,
+same keys, same order). Hypotheses: sizes fit the 64-bit counters (`Sized`) and the value is a
+PHP array in the first place, i.e. no array holds two entries under one key (`Distinct`).
+(After the fixes: on the pinned code `serialize(1.5)` was `false` and the names of the slots
+were replaced by `0..n-1`.) -/
+theorem C14_serialize_roundtrip (v : PV) (hs : Sized v) (hd : Distinct v) :
+    ∃ bs w, ser v = some bs ∧ unserializeT bs = .value w ∧ sem w = sem v := by
+  obtain ⟨bs, hb⟩ := ser_total v
+  exact ⟨bs, rb v, hb, unserialize_ser_rb v hs bs hb, sem_rb v hs hd⟩
+
+/-- **exact round trip** on the representations `unserialize` itself produces (`CanonV`: lists
+with positional slots only, keyed arrays as non-empty `ObjectValue`s with distinct keys, floats
+as any float text): the very same Go-level value comes back, not just the same PHP value. -/
+theorem C14_serialize_roundtrip_exact (v : PV) (hc : CanonV v) (bs : Model.Ser.Bytes)
     (hs : ser v = some bs) : unserializeT bs = .value v := unserialize_ser v hc bs hs
 
-/-- `serialize` answers (not `false`) on every such value. -/
-theorem C14_serialize_defined_partial (v : PV) (hc : CanonV v) : ∃ bs, ser v = some bs := ser_some v hc
+/-- **`serialize` answers (never `false`) on every value of the model.** (The pinned code had no
+float case; `C14_serialize_float_counterexample` was the negation witness.) -/
+theorem C14_serialize_defined (v : PV) : ∃ bs, ser v = some bs := ser_total v
 
-/-- negation witness: `serialize(1.5)` is `false`, so floats are not carried at all. -/
-theorem C14_serialize_float_counterexample : ¬ ∀ v : PV, ∃ bs, ser v = some bs := by
-  intro h; obtain ⟨bs, hb⟩ := h .float; simp [ser] at hb
+/-- pinned witnesses of the two repaired defects: `serialize(1.5)`, and the slot names of
+`json_decode('{"x":1,"y":"z"}', true)` -/
+theorem C14_serialize_float_witness :
+    ser (.float [49, 46, 53]) = some [100, 58, 49, 46, 53, 59] ∧
+    unserializeT [100, 58, 49, 46, 53, 59] = .value (.float [49, 46, 53]) := ⟨rfl, rfl⟩
 
-/-- **unserialize consumes all** — partial: when the (trimmed) input does not start with `s:`,
-a value is returned only if the recursive-descent reader consumed the input to its last byte. -/
-theorem C14_unserialize_consumes_all_partial (raw : Model.Ser.Bytes) (v : PV)
-    (hs : startsWith [115, 58] raw = false) (h : unserializeT raw = .value v) :
+theorem C14_serialize_keyed_slots_witness :
+    ser (.arr (.cons [120] (.int 1) (.cons [121] (.str [122]) .nil))) =
+      some [97, 58, 50, 58, 123, 115, 58, 49, 58, 34, 120, 34, 59, 105, 58, 49, 59,
+            115, 58, 49, 58, 34, 121, 34, 59, 115, 58, 49, 58, 34, 122, 34, 59, 125] := by rfl
+
+theorem legacyStr_not_value (raw : Model.Ser.Bytes) (v : PV) : legacyStr raw ≠ .value v := by
+  unfold legacyStr
+  split
+  · split
+    · simp
+    · simp only
+      split <;> simp
+  · simp
+
+/-- **unserialize consumes all**: a value is returned only if the recursive-descent reader
+consumed the (trimmed) input to its last byte — for every input, `s:` included (after fix
+C14-7; the pinned code returned whatever lay between the first and the last double quote). -/
+theorem C14_unserialize_consumes_all (raw : Model.Ser.Bytes) (v : PV)
+    (h : unserializeT raw = .value v) :
     pValue (2 * raw.length + 1) raw = some (v, []) := by
   unfold unserializeT at h
   split at h
@@ -208,7 +241,45 @@ theorem C14_unserialize_consumes_all_partial (raw : Model.Ser.Bytes) (v : PV)
           rw [hw, hv, h]
         · simp at hv
       · simp at hv
-    · rw [hs] at h; simp at h
+    · split at h
+      · exact absurd h (legacyStr_not_value raw v)
+      · simp at h
+
+/-- **array keys are scalars**: every key the entry loop of `parsePhpArray` returns is an int or
+a string (after fix C14-6; the pinned code turned any value into a key with `AsString()`). -/
+theorem C14_unserialize_keys_are_scalars (fuel n : Nat) (s r : Model.Ser.Bytes) (es : List (PV × PV))
+    (h : pEntries fuel n s = some (es, r)) : ∀ e ∈ es, keyOk e.1 = true := by
+  induction fuel generalizing n s r es with
+  | zero =>
+    cases n with
+    | zero => simp only [pEntries, Option.some.injEq, Prod.mk.injEq] at h; intro e he; rw [← h.1] at he; simp at he
+    | succ n => simp [pEntries] at h
+  | succ f ih =>
+    cases n with
+    | zero => simp only [pEntries, Option.some.injEq, Prod.mk.injEq] at h; intro e he; rw [← h.1] at he; simp at he
+    | succ n =>
+      rw [pEntries] at h
+      cases hk : keyFilter (pValue f s) with
+      | none => simp [hk] at h
+      | some p1 =>
+        obtain ⟨k, s1⟩ := p1
+        simp only [hk] at h
+        cases h2 : pValue f s1 with
+        | none => simp [h2] at h
+        | some p2 =>
+          obtain ⟨v, s2⟩ := p2
+          simp only [h2] at h
+          cases h3 : pEntries f n s2 with
+          | none => simp [h3] at h
+          | some p3 =>
+            obtain ⟨es', s3⟩ := p3
+            simp only [h3, Option.some.injEq, Prod.mk.injEq] at h
+            intro e he
+            rw [← h.1] at he
+            simp only [List.mem_cons] at he
+            rcases he with rfl | he
+            · exact keyFilter_ok hk
+            · exact ih n s2 s3 es' h3 e he
 
 /-- **unserialize is total**: the reader of the model is a total function and its fuel
 (`2·len + 1`, what `parseAll` supplies) is never the reason for an answer — any larger fuel
@@ -216,15 +287,27 @@ gives the same result. -/
 theorem C14_unserialize_total (s : Model.Ser.Bytes) (k : Nat) :
     pValue (2 * s.length + 1 + k) s = pValue (2 * s.length + 1) s := fuel_irrelevant s k
 
-/-- negation witness for the `s:` case: a string with a wrong length is accepted through the
-legacy branch (first to last double quote of the whole input). -/
-theorem C14_unserialize_lax_string_counterexample :
-    unserializeT [115, 58, 53, 58, 34, 97, 98, 34, 59] = .value (.str [97, 98]) := by rfl
+/-- replays of the repaired lax inputs: a string with a wrong length and an array as a key are
+`false` now -/
+theorem C14_unserialize_lax_string_rejected :
+    unserializeT [115, 58, 53, 58, 34, 97, 98, 34, 59] = .false := by rfl
+
+theorem C14_unserialize_nonscalar_key_rejected :
+    unserializeT [97, 58, 49, 58, 123, 97, 58, 48, 58, 123, 125, 105, 58, 49, 59, 125] = .false := by rfl
 
 example : CanonV (.arr (.cons [] (.str [97, 34, 59]) (.cons [] (.obj (.cons [107] (.int (-9223372036854775808)) .nil)) .nil))) := by
   simp [CanonV, CanonItems, CanonProps, PL.len, maxInt, Proofs.Ser.PL.keys]
+example : CanonV (.float [45, 49, 46, 53, 69, 43, 50, 53]) := by
+  refine ⟨by rfl, by decide⟩
+/-- a mixed `ArrayValue` (`[7, 'k' => 1.5, 6 => []]`) satisfies the hypotheses of the full theorem -/
+example : Sized (.arr (.cons [] (.int 7) (.cons [107] (.float [49, 46, 53]) (.cons [54] (.arr .nil) .nil)))) ∧
+    Distinct (.arr (.cons [] (.int 7) (.cons [107] (.float [49, 46, 53]) (.cons [54] (.arr .nil) .nil)))) := by
+  refine ⟨?_, ?_⟩
+  · simp [Sized, SizedL, PL.len, maxInt]
+    rfl
+  · simp [Distinct, DistinctL, semItems, SL.keys, slotSem, keyOf]
+    decide
 example : ser (.arr (.cons [] (.str [97]) (.cons [] (.str [98]) .nil))) =
     some [97, 58, 50, 58, 123, 105, 58, 48, 59, 115, 58, 49, 58, 34, 97, 34, 59, 105, 58, 49, 59, 115, 58, 49, 58, 34, 98, 34, 59, 125] := by rfl
-example : startsWith [115, 58] [105, 58, 55, 59] = false := by rfl
 
 end C14
